@@ -381,6 +381,29 @@ func (rd *Reader) Delivered() int {
 	return len(rd.deliveries)
 }
 
+// SelfCheck verifies what can be verified without the write log (the writer may live in
+// another process): every delivered payload is a valid written one, attributed to the media and
+// format it names, with strictly increasing counters per flow. It returns "" or a description.
+func (rd *Reader) SelfCheck() string {
+	rd.mu.Lock()
+	defer rd.mu.Unlock()
+	last := map[[2]int]int64{}
+	for i, d := range rd.deliveries {
+		if !d.Parsed {
+			return fmt.Sprintf("delivery %d is not a written payload (len %d)", i, d.Len)
+		}
+		if d.Media != int(d.ID.Media) || d.PT != d.ID.PT {
+			return fmt.Sprintf("packet written to media %d format %d delivered as media %d format %d", d.ID.Media, d.ID.PT, d.Media, d.PT)
+		}
+		k := [2]int{d.Media, int(d.PT)}
+		if l, ok := last[k]; ok && int64(d.ID.Ctr) <= l {
+			return fmt.Sprintf("media %d format %d: packet %d delivered after packet %d", d.Media, d.PT, d.ID.Ctr, l)
+		}
+		last[k] = int64(d.ID.Ctr)
+	}
+	return ""
+}
+
 // Finding is one violation found by the delivery checker.
 type Finding struct {
 	Key    string
